@@ -378,10 +378,30 @@ var pendingLabel = map[*ast.LabeledStmt][]ast.Stmt{}
 
 func (r *rw) rewriteGo(c *astutil.Cursor, n *ast.GoStmt) {
 	fl, ok := n.Call.Fun.(*ast.FuncLit)
-	if !ok || len(n.Call.Args) != 0 || len(fl.Type.Params.List) != 0 {
-		r.errAt(n, "only `go func() {...}()` is supported in a scheduled package")
+	if ok && len(n.Call.Args) == 0 && len(fl.Type.Params.List) == 0 {
+		c.Replace(&ast.ExprStmt{X: &ast.CallExpr{Fun: vrtSel("Go"), Args: []ast.Expr{r.site(n), fl}}})
+		r.needVrt, r.changed = true, true
+		r.sites++
+		return
 	}
-	c.Replace(&ast.ExprStmt{X: &ast.CallExpr{Fun: vrtSel("Go"), Args: []ast.Expr{r.site(n), fl}}})
+	// the general form `go f(a, b...)`: the function value and the arguments are evaluated by the go statement,
+	// the call itself runs in the new goroutine:  { f', a' := f, a; vrt.Go(site, func() { f'(a') }) }
+	fn := r.fresh("gofn")
+	lhs := []ast.Expr{ast.NewIdent(fn)}
+	rhs := []ast.Expr{n.Call.Fun}
+	var args []ast.Expr
+	for _, a := range n.Call.Args {
+		v := r.fresh("goarg")
+		lhs = append(lhs, ast.NewIdent(v))
+		rhs = append(rhs, a)
+		args = append(args, ast.NewIdent(v))
+	}
+	call := &ast.CallExpr{Fun: ast.NewIdent(fn), Args: args, Ellipsis: n.Call.Ellipsis}
+	body := &ast.FuncLit{Type: &ast.FuncType{Params: &ast.FieldList{}}, Body: &ast.BlockStmt{List: []ast.Stmt{&ast.ExprStmt{X: call}}}}
+	c.Replace(&ast.BlockStmt{List: []ast.Stmt{
+		&ast.AssignStmt{Lhs: lhs, Tok: token.DEFINE, Rhs: rhs},
+		&ast.ExprStmt{X: &ast.CallExpr{Fun: vrtSel("Go"), Args: []ast.Expr{r.site(n), body}}},
+	}})
 	r.needVrt, r.changed = true, true
 	r.sites++
 }
